@@ -767,7 +767,7 @@ def r3_refusal_paths(ctx):
     # the acknowledgement visitors are fenced: their exceptions do not escape (documented behaviour of the entry point)
     accepts = [c for c in A.calls_in(fn) if A.call_target(c)[1] == 'accept' or A.call_target(c)[1] in ('error_997_visitor', 'error_999_visitor')]
     unfenced = [c for c in accepts if '*' not in _caught(fn, c)]
-    ok = len(accepts) >= 3 and not unfenced
+    ok = len(accepts) >= 1 and any(A.call_target(c)[1] == 'accept' for c in accepts) and not unfenced
     yield Ob('x12n_document:x12n_document acknowledgement generation is fenced by `except Exception`', ok, ctx.floc(fn, unfenced[0] if unfenced else fn),
              '' if ok else ('%d visitor runs found' % len(accepts) if not unfenced else 'a visitor run is not inside `except Exception`: a failure while writing the acknowledgement aborts validation'))
     cb = [s for s in ast.walk(fn) if isinstance(s, ast.Try) and any(A.call_target(c) == (None, 'callback') for c in A.calls_in(s))]
@@ -783,6 +783,23 @@ def r3_refusal_paths(ctx):
                         ok = True
                 except (A.NotClosed, TypeError):
                     pass
+    if not ok:
+        # the other form: the current node (what is validated and searched from next) only takes the walker's result when
+        # that is not None - every store of a possibly-None result into it stands under `<result> is not None`
+        cur = A.current_node_var(fn)
+        loops_ = [l_ for l_ in ast.walk(fn) if isinstance(l_, ast.For) and path_of(l_.iter) == 'src']
+        if cur and len(loops_) == 1:
+            stores = [n for n in ast.walk(loops_[0]) if isinstance(n, ast.Assign) and any(path_of(t_) == cur for t_ in n.targets) and isinstance(n.value, ast.Name)]
+            good = 0
+            for n in stores:
+                res = n.value.id
+                conds = A.path_condition(n, fn)
+                try:
+                    if any(bool(A.ev(t, {res: None})) != pol and bool(A.ev(t, {res: 1})) == pol for t, pol in conds if A.free_paths(t) <= {res}):
+                        good += 1
+                except (A.NotClosed, TypeError):
+                    pass
+            ok = bool(stores) and good == len(stores)
     yield Ob('x12n_document:x12n_document segment not found falls back to the previous node', ok, ctx.floc(fn), '' if ok else 'fallback changed')
 
 
